@@ -127,6 +127,8 @@ func (c *Conversation) End() (toSend []ValidMessage, err error) {
 	c.ake.wipe(true)
 	c.ake = nil
 	c.msgState = plainText
+	// the protocol version belongs to the session (or exchange) that ends here: the next one negotiates again
+	c.version = nil
 	defer c.signalSecurityEventIf(previousMsgState == encrypted, GoneInsecure)
 
 	c.keys.ourCurrentDHKeys.wipe()
